@@ -30,7 +30,7 @@ def join_lang(pn, post_smt):
 def run():
     ses = Session("C08")
     rep = ses.rep
-    recs, stats, _ = progs.load()
+    recs, stats, _ = progs.load(routes=True)
     tasks = []
     info = {}
     side_checked = 0
@@ -72,6 +72,16 @@ def run():
                 rep.candidate(rs, {"short": {"program": text, "prefix": part["prefix"],
                                                           "postfix": ptext, "problem": p,
                                                           "postfix_root": post["root"]}})
+        # ---- partitioning an owned glob gives the same result (text, program, spans) ----
+        po = (row.get("routes") or {}).get("part_owned")
+        if po is not None:
+            o_post = po.get("post")
+            same = (po["prefix"] == part["prefix"] and (o_post is None) == (post is None) and
+                    (post is None or all(o_post.get(k) == post.get(k) for k in ("display", "re", "caps", "root"))))
+            if not same:
+                rep.candidate({"owned-partition-differs"},
+                              {"short": {"program": text, "borrowed": [part["prefix"], post and post["display"]],
+                                         "owned": [po["prefix"], o_post and o_post.get("display")]}})
         # ---- main clause ----
         if not ok:
             rhs = "re.none"
